@@ -67,6 +67,34 @@ def gen_spec(rng, max_tasks=10, allow_empty=True):
     return {"tasks": tasks, "workers": workers, "ext": ext}
 
 
+def gen_wide_spec(rng):
+    """scale: 64-110 source tasks feeding a thin fan-in layer (one or a few large components, so that many tasks are
+    computable and many workers idle in the same round), on 63-90 workers: thresholds such as batch caps, queue sizes
+    and round-robin wrap-arounds are never reached by the <= 10 task jobs"""
+    nsrc = rng.choice([64, 65, 70, 96, 110])
+    def task(ins, nout=1):
+        return {"nout": nout, "ins": ins, "gpu": False, "none": [], "onames": [f"o{o}" for o in range(nout)], "static_kw": {}, "static_ps": {}}
+    tasks = [task([]) for _ in range(nsrc)]
+    ncomp = rng.choice([1, 1, 2, 3])
+    nmid = rng.choice([1, 2, 4, 8])
+    mids = []
+    for m in range(nmid * ncomp):
+        comp, j = m % ncomp, m // ncomp
+        mine = [k for k in range(nsrc) if k % ncomp == comp and (k // ncomp) % nmid == j]
+        if mine:
+            mids.append((comp, len(tasks)))
+            tasks.append(task([(k, 0) for k in mine], rng.choice([1, 2])))
+    for comp in range(ncomp):
+        tops = [(t, 0) for c, t in mids if c == comp]
+        if len(tops) > 1:
+            tasks.append(task(tops))
+    hosts = rng.choice([1, 2, 4, 5])
+    nw = rng.choice([63, 64, 65, 80, 90])
+    workers = [{"host": i % hosts, "gpu": False} for i in range(nw)]
+    ext = [(k, 0) for k in range(len(tasks)) if rng.random() < 0.05]
+    return {"tasks": tasks, "workers": workers, "ext": ext}
+
+
 def tname(k):
     return f"t{k}"
 
@@ -609,6 +637,8 @@ def run_family(ctx, res, pid, n, modes=("fifo", "batchy", "shuffle", "newest"), 
     def generated():
         for i in range(n):
             yield gen(rng, max_tasks=max_tasks), modes[i % len(modes)], rng.randrange(2**31)
+        for j in range(0 if n == 0 else (3 if n <= 500 else 12)):     # scale: >= 64 tasks on >= 63 workers
+            yield gen_wide_spec(rng), modes[j % len(modes)], rng.randrange(2**31)
     for i, (spec, mode, seed) in enumerate(cases if cases is not None else generated()):
         r = (runner or run_case)(spec, seed, mode)
         res.evaluations += 1
